@@ -128,40 +128,145 @@ Proof.
   destruct r2 as [|e|]; [|destruct e|]; inversion H; subst; cbn [p_file]; exact A.
 Qed.
 
+(* request numbers stay fresh along the whole upload, whatever the server answers *)
+Lemma fwrite1_wf mrs s data r n s1 : wf (p_c s) -> fwrite1 mrs s data = (r, n, s1) -> wf (p_c s1).
+Proof.
+  intros Hw H. unfold fwrite1 in H. destruct (next_env (p_env s)) as [[ready code] env'].
+  destruct (write_op true ready (g_CMD_STATUS, code) (p_f s) (p_c s)) as [[r' f'] c'] eqn:Ew.
+  apply write_op_wf in Ew; [|exact Hw]. inversion H; subst. exact Ew.
+Qed.
+
+Lemma write_all_wf mrs fuel : forall s data r s1, wf (p_c s) -> write_all mrs fuel s data = (r, s1) -> wf (p_c s1).
+Proof.
+  induction fuel as [|k IH]; intros s data r s1 Hw H; destruct data as [|x data']; cbn [write_all] in H;
+    try (inversion H; subst; exact Hw).
+  destruct (fwrite1 mrs s (x :: data')) as [[r0 n] s0] eqn:Ef.
+  apply fwrite1_wf in Ef; [|exact Hw].
+  destruct r0; try (inversion H; subst; exact Ef).
+  apply IH in H; [exact H | exact Ef].
+Qed.
+
+Lemma flush_wf mrs s r s1 : wf (p_c s) -> flush mrs s = (r, s1) -> wf (p_c s1).
+Proof.
+  intros Hw H. unfold flush in H.
+  destruct (write_all mrs (length (p_wbuf s)) s (p_wbuf s)) as [r0 s0] eqn:Ew.
+  apply write_all_wf in Ew; [|exact Hw]. destruct r0; inversion H; subst; exact Ew.
+Qed.
+
+Lemma bwrite_wf mrs bufsize s data r s1 : wf (p_c s) -> bwrite mrs bufsize s data = (r, s1) -> wf (p_c s1).
+Proof.
+  intros Hw H. unfold bwrite in H. destruct (f_closed (p_f s)); [inversion H; subst; exact Hw|].
+  match type of H with context [if ?b then _ else _] => destruct b end.
+  - apply flush_wf in H; [exact H | exact Hw].
+  - inversion H; subst. exact Hw.
+Qed.
+
+Lemma transfer_wf mrs bufsize chunks : forall s size r sz s1,
+  wf (p_c s) -> transfer mrs bufsize s chunks size = (r, sz, s1) -> wf (p_c s1).
+Proof.
+  induction chunks as [|ch rest IH]; intros s size r sz s1 Hw H; cbn [transfer] in H.
+  - destruct (bwrite mrs bufsize s []) as [r0 s0] eqn:Eb. apply bwrite_wf in Eb; [|exact Hw].
+    inversion H; subst. exact Eb.
+  - destruct (bwrite mrs bufsize s ch) as [r0 s0] eqn:Eb. apply bwrite_wf in Eb; [|exact Hw].
+    destruct r0; try (inversion H; subst; exact Eb). eapply IH; eauto.
+Qed.
+
+Lemma pclose_wf mrs s rp r s2 : wf (p_c s) -> pclose mrs s rp = (r, s2) -> wf (p_c s2).
+Proof.
+  intros Hw H. unfold pclose in H. destruct (f_closed (p_f s)); [inversion H; subst; exact Hw|].
+  destruct (flush mrs s) as [r0 s1] eqn:Ef. apply flush_wf in Ef; [|exact Hw].
+  destruct r0; try (inversion H; subst; exact Ef).
+  destruct (request (p_c s1) rp) as [[[r2 t2] k2] c2] eqn:Er. apply request_wf in Er; [|exact Ef].
+  destruct r2 as [|e|]; [|destruct e|]; inversion H; subst; exact Er.
+Qed.
+
 (* what putfo returned normally with *)
 Lemma putfo_ret_inv mrs bufsize chunks confirm env orp crp srp dest :
   putfo mrs bufsize chunks confirm env orp crp srp = (ORet, dest) ->
   exists c1 sz s1 s2,
+    wf c1 /\
     transfer mrs bufsize (mkP (mkF true [] false) c1 0 [] [] env) chunks 0 = (ORet, sz, s1) /\
     pclose mrs s1 crp = (ORet, s2) /\ dest = p_file s2 /\
     (confirm = true -> srp = None -> zlen dest = sz).
 Proof.
   unfold putfo. intros H.
-  destruct (request c_init orp) as [[[r0 t0] k0] c1].
+  destruct (request c_init orp) as [[[r0 t0] k0] c1] eqn:Eo.
+  apply request_wf in Eo; [|exact wf_init].
   destruct r0; try discriminate H.
   destruct (negb (t0 =? g_CMD_HANDLE)); try discriminate H.
   destruct (transfer mrs bufsize (mkP (mkF true [] false) c1 0 [] [] env) chunks 0) as [[r1 sz] s1] eqn:Et.
   destruct (pclose mrs s1 crp) as [r2 s2] eqn:Ec.
+  assert (W2 : wf (p_c s2)).
+  { eapply pclose_wf; [|exact Ec]. eapply transfer_wf; [|exact Et]. exact Eo. }
   destruct r1, r2; try discriminate H.
-  exists c1, sz, s1, s2. split; [reflexivity|]. split; [reflexivity|].
+  exists c1, sz, s1, s2. split; [exact Eo|]. split; [reflexivity|]. split; [reflexivity|].
   destruct confirm.
   - destruct srp as [rp|].
     + destruct (request (p_c s2) rp) as [[[r3 t3] k3] c3]. destruct r3; try discriminate H.
       destruct (negb (t3 =? g_CMD_ATTRS)); try discriminate H.
       destruct (k3 =? sz); inversion H. split; [reflexivity | intros _ X; discriminate X].
-    + destruct (request (p_c s2) (g_CMD_ATTRS, zlen (p_file s2))) as [[[r3 t3] k3] c3] eqn:Er.
-      destruct r3; try discriminate H.
-      destruct (negb (t3 =? g_CMD_ATTRS)) eqn:Et3; try discriminate H.
-      destruct (k3 =? sz) eqn:Ek; inversion H. subst dest. split; [reflexivity|]. intros _ _.
-      (* the size the client compared is the size the honest stat carried *)
-      apply Z.eqb_eq in Ek. subst sz.
-      unfold request in Er.
-      destruct (async_request (p_c s2) (g_CMD_ATTRS, zlen (p_file s2))) as [c0 n] eqn:Ea.
-      destruct (read_response (Some n) (c_in c0) (c_exp c0)) as [[rr0 i0] e0] eqn:Err.
-      unfold async_request in Ea. inversion Ea; subst c0 n. cbn [c_in c_exp fst snd] in Err.
-      destruct rr0; inversion Er; subst.
-      * (* RFound: it is the ATTRS reply appended last, or an earlier packet with the same number *)
-        admit_placeholder.
-      * apply negb_false_iff, Z.eqb_eq in Et3. vm_compute in Et3. discriminate Et3.
+    + destruct (request_spec (p_c s2) g_CMD_ATTRS (zlen (p_file s2)) W2) as [c' Hr].
+      rewrite Hr in H. change (status_result g_CMD_ATTRS (zlen (p_file s2))) with (RFound g_CMD_ATTRS (zlen (p_file s2))) in H.
+      cbv beta iota in H. change (negb (g_CMD_ATTRS =? g_CMD_ATTRS)) with false in H. cbv beta iota in H.
+      destruct (zlen (p_file s2) =? sz) eqn:Ek; inversion H. subst dest.
+      split; [reflexivity|]. intros _ _. apply Z.eqb_eq in Ek. exact Ek.
   - inversion H. split; [reflexivity | intros X; discriminate X].
 Qed.
+
+Lemma init_good c1 env : accepted env -> good (mkP (mkF true [] false) c1 0 [] [] env).
+Proof. intros H. repeat split; assumption. Qed.
+
+(* exact or raise, for a server that accepts every write it is sent *)
+Lemma putfo_exact_if_accepted mrs bufsize chunks confirm env orp crp srp dest :
+  accepted env ->
+  putfo mrs bufsize chunks confirm env orp crp srp = (ORet, dest) -> dest = concat chunks.
+Proof.
+  intros Ha H. apply putfo_ret_inv in H as [c1 [sz [s1 [s2 [_ [Et [Ec [-> _]]]]]]]].
+  apply transfer_acc in Et; [|apply init_good, Ha]. destruct Et as [A G].
+  apply pclose_acc in Ec; [|exact G]. rewrite Ec, A. reflexivity.
+Qed.
+
+(* with confirm=True and an honest stat, a normal return means the remote size is the byte count sent *)
+Lemma putfo_confirm_size mrs bufsize chunks env orp crp dest :
+  putfo mrs bufsize chunks true env orp crp None = (ORet, dest) -> zlen dest = zlen (concat chunks).
+Proof.
+  intros H. apply putfo_ret_inv in H as [c1 [sz [s1 [s2 [_ [Et [_ [_ Hs]]]]]]]].
+  apply transfer_size in Et. rewrite Hs by reflexivity. lia.
+Qed.
+
+(* hence: a rejected write that leaves the file short is caught by confirm=True *)
+Lemma putfo_confirm_short_raises mrs bufsize chunks env orp crp r dest :
+  putfo mrs bufsize chunks true env orp crp None = (r, dest) ->
+  zlen dest <> zlen (concat chunks) -> r <> ORet.
+Proof. intros H Hne ->. apply putfo_confirm_size in H. contradiction. Qed.
+
+(* ---- the defect (known finding): rejected pipelined writes are discarded ------------------- *)
+Definition ok_rp : reply := (g_CMD_STATUS, g_SFTP_OK).
+Definition handle_rp : reply := (g_CMD_HANDLE, 0).
+
+(* one byte, buffered, flushed by close(); the server rejects the write: putfo(confirm=False)
+   returns normally and the remote file is empty *)
+Lemma exact_or_raise_refuted_noconfirm :
+  exists chunks env dest,
+    putfo g_MAX_REQUEST_SIZE g_DEFAULT_BUFSIZE chunks false env handle_rp ok_rp None = (ORet, dest) /\
+    dest <> concat chunks.
+Proof.
+  exists [[1]], [(false, g_SFTP_PERMISSION_DENIED)], []. split; [vm_compute; reflexivity | discriminate].
+Qed.
+
+(* 8192 bytes (written at once, rejected) then 1 byte (written by close() at offset 8192, accepted):
+   the size matches, so putfo(confirm=True) returns normally although the first 8192 bytes are zeros *)
+Lemma exact_or_raise_refuted_confirm :
+  exists chunks env dest,
+    putfo g_MAX_REQUEST_SIZE g_DEFAULT_BUFSIZE chunks true env handle_rp ok_rp None = (ORet, dest) /\
+    dest <> concat chunks /\ zlen dest = zlen (concat chunks).
+Proof.
+  exists [repeat 1 8192; [2]], [(false, g_SFTP_FAILURE); (false, g_SFTP_OK)], (repeat 0 8192 ++ [2]).
+  split; [vm_compute; reflexivity | split; [|vm_compute; reflexivity]].
+  intros H. apply (f_equal (fun l => hd 9 l)) in H. vm_compute in H. discriminate H.
+Qed.
+
+(* non-vacuity of the positive theorems: a three-request upload that returns, exactly *)
+Lemma putfo_example :
+  putfo 4 3 [[1; 2; 3; 4; 5; 6; 7; 8; 9]; [10]] true [] handle_rp ok_rp None = (ORet, [1; 2; 3; 4; 5; 6; 7; 8; 9; 10]).
+Proof. vm_compute. reflexivity. Qed.
